@@ -3,6 +3,7 @@ import Sqfs.Model.Quote
 import Sqfs.Model.QuoteOld
 import Sqfs.Model.QuoteLF
 import Sqfs.Spec.Quote
+import Sqfs.Spec.QuoteFs
 /-
 `sqfsmodel c16` — one operation per line:
 
@@ -23,6 +24,12 @@ import Sqfs.Spec.Quote
   dtree <cur|fix|old> <root|NONE> <n> {<depth> <kind> <perm> <uid> <gid> <devno> <target> <name>}*   (pre-order, depth of root = 0)
                                                     → `ok <hex output>` | `err <why>`
   etree <root|NONE> <n> {…as dtree…}                → `ents <k> …`: the specification `specTree` of the whole tree
+
+  fsbuild <keepUid> <forceUid> <keepGid> <forceGid> <defUid> <defGid> <defMode> <defMtime> <hexcontent>
+                                                    → `tree <n> {<depth> <name> <mode> <uid> <gid> <mtime> <linkcount> <implicit> <rdev> <extra|NULL>}* st=<status>`
+                                                      (`Sqfs.QuoteFs.buildFromFile`: the pack file through the real `fstree_add_generic`)
+  ntree <defUid> <defGid> <defMode> <defMtime> <root|NONE> <n> {…as dtree…}
+                                                    → the same dump of the specification `Sqfs.QuoteFs.normTree`
 
 `cur` = describe.c as in /repo (`Sqfs.Quote`), `fix` = with fixes/C16-describe-newline.patch (`Sqfs.QuoteLF`),
 `old` = the pinned snapshot before 96e45c1 (`Sqfs.QuoteOld`; only used to name a regression).  `new` is read as `cur`.
@@ -88,6 +95,23 @@ def parseNodes : List String → Option (List (Nat × Sqfs.Path.Bytes × Node))
     let rest ← parseNodes r
     pure ((← d.toNat?, name, n) :: rest)
   | _ => none
+
+def showFlat (x : Nat × List UInt8 × Sqfs.QuoteFs.FAttr) : String :=
+  let (depth, name, a) := x
+  s!" {depth} {toHexTok name} {a.mode} {a.uid} {a.gid} {a.mtime} {a.linkCount} {if a.implicit then 1 else 0} {a.rdev} " ++
+    (match a.extra with | none => "NULL" | some x => toHexTok x)
+
+def showFsErr : Sqfs.QuoteFs.FsErr → String
+  | .inval => "inval" | .range => "range" | .notdir => "notdir" | .exist => "exist" | .mlink => "mlink"
+
+def showBuild (r : Sqfs.QuoteFs.FNode × Option Sqfs.QuoteFs.BuildErr) : String :=
+  let st := match r.2 with
+    | none => "ok"
+    | some (.fs e) => "fs:" ++ showFsErr e
+    | some (.parse (.split e)) => "split:" ++ showSplitErr e
+    | some (.parse (.handle e)) => "h:" ++ showHErr e
+  let fl := r.1.flat 0
+  s!"tree {fl.length}" ++ String.join (fl.map showFlat) ++ " st=" ++ st
 
 def descNode (which : String) (ur : Option (List UInt8)) (cs : List (List UInt8)) (n : Node) : Except DErr (List UInt8) :=
   if which = "old" then Sqfs.QuoteOld.describeNode ur cs n
@@ -185,6 +209,17 @@ def step (line : String) : String :=
       | .ok l => "ok " ++ toHexTok l
       | .error e => "err " ++ showDErr e
     | _, _ => "bad-op"
+  | ["fsbuild", ku, fu, kg, fg, du, dg, dm, dt, h] =>
+    match fu.toNat?, fg.toNat?, du.toNat?, dg.toNat?, dm.toNat?, dt.toNat?, fromHex h with
+    | some fu, some fg, some du, some dg, some dm, some dt, some s =>
+      showBuild (Sqfs.QuoteFs.buildFromFile { keepUid := ku = "1", forceUid := fu, keepGid := kg = "1", forceGid := fg }
+        { uid := du, gid := dg, mode := dm, mtime := dt } s)
+    | _, _, _, _, _, _, _ => "bad-op"
+  | "ntree" :: du :: dg :: dm :: dt :: root :: cnt :: rest =>
+    match du.toNat?, dg.toNat?, dm.toNat?, dt.toNat?, optRoot root, treeOf cnt rest with
+    | some du, some dg, some dm, some dt, some ur, some t =>
+      showBuild (Sqfs.QuoteFs.normTree { uid := du, gid := dg, mode := dm, mtime := dt } ur [] t, none)
+    | _, _, _, _, _, _ => "bad-op"
   | "etree" :: root :: cnt :: rest =>
     match optRoot root, treeOf cnt rest with
     | some ur, some t => showParse (specTree ur [] t, none)
